@@ -116,6 +116,21 @@ PROPS = {
         "level_text": "Exploration by generated request sequences incl. single-bit corruptions of valid messages; explicit oracle. Sampling, not proof.",
         "level_note": "Trusted base: rpki-rs CMS encoding/decoding used to build requests and to validate replies; krill's own signer used with harness-owned identity keys.",
     },
+    "C15": {
+        "level": "exploration",
+        "cases": {"quick": 1200, "thorough": 24000},
+        "rule": "cases = generated sequences of operations on a krill instance that runs the trust-anchor proxy only and stand-alone signer installations (the krillta signer manager with its own storage and keys): add children under the TA, key rolls of those children "
+        "(issuance and revocation requests queue up at the proxy), partial and full runs of the background tasks, make-request, processing of a chosen request at a chosen signer (current, old, forged with another key, clear text altered, signed message bit-flipped; "
+        "the associated signer or a signer set up for another proxy), delivery of a chosen response to the proxy (latest, old/replayed, an old one with the open nonce pasted in, forged with another key, clear text altered, bit-flipped), honest exchanges, signer re-initialisation "
+        "with the same TA key, clock advances; distinct by hash of the case JSON; non-trivial iff at least one message was refused and at least two responses were accepted",
+        "floors": {"__nontrivial__": 0.50, "stale_or_replayed_response_refused": 0.40, "tampered_response_refused": 0.15, "forged_response_refused": 0.08, "unauthentic_request_refused": 0.30, "child_requests_signed": 0.50, "signer_reinitialised": 0.05, "second_request_refused": 0.20},
+        "assumptions": ["messages are moved between proxy and signer as the typed request/response values that the CLI reads from and writes to files; altered messages are made by editing their JSON form", "the clock is advanced by less than the validity of signed messages",
+                        "after a signer re-initialisation the operator passes the next manifest number (ta_mft_nr_override); the final tree check is skipped for such histories because the new signer does not know the certificates issued by its predecessor"],
+        "technique": "property-based testing of generated message histories with an explicit acceptance oracle (a response is accepted iff it carries the open nonce, comes unaltered from the associated signer; a request is processed iff unaltered and signed by the proxy the signer was set up for), state comparison around refusals, "
+        "one-response-per-child-request check on every signer response, relying-party read-out of the TA manifest/CRL numbers after every step (never decrease, agree), convergence check (no open request or undelivered response, valid tree) after honest exchanges",
+        "level_text": "Exploration by generated message histories with replayed, re-ordered, cross-wired, altered and forged messages; explicit oracle. Sampling, not proof.",
+        "level_note": "Trusted base: krill's own signer for forging messages under harness keys; the rpki-rs based relying-party walk for manifest numbers.",
+    },
     "C16": {
         "level": "exploration",
         "cases": {"quick": 1600, "thorough": 32000},
